@@ -269,7 +269,7 @@ class AdvancedHTMLFormatter(HTMLParser):
         '''
         inTag = self._inTag
         if len(inTag) > 0:
-            inTag[-1].appendText('<!-- %s -->' %(comment,))
+            inTag[-1].appendText('<!--%s-->' %(comment,))
         else:
             raise MultipleRootNodeException()
 
